@@ -1483,3 +1483,16 @@ mod authority_matched_cert_name_tests {
         assert!(authority_matched_cert_name("[::1]:8443", &names).is_some());
     }
 }
+
+/// Out-of-tree verification hook (add-only, compiled only with
+/// `--cfg sozu_verif`): the strict-SNI predicates evaluated by
+/// `route_from_request`.
+#[cfg(sozu_verif)]
+pub mod verif {
+    pub fn authority_matched_cert_name<'a>(authority: &str, names: &'a [String]) -> Option<&'a str> {
+        super::authority_matched_cert_name(authority, names)
+    }
+    pub fn authority_matches_sni(authority: &str, sni_lowercased: &str) -> bool {
+        super::authority_matches_sni(authority, sni_lowercased)
+    }
+}
